@@ -327,7 +327,9 @@ def conflict_family():
                 out.extend(fam)
     # the same terminal spelled in two ways, a rule defined twice
     out += ["s: 'x' 'b' | \"x\" 'c'\n", "s: 'p' ('x' 'b' | \"x\" 'c')\n", "s: a | \"x\" 'c'\na: 'x' 'b'\n", "s: '\\x78' 'b' | 'x' 'c'\n", "s: \"x\" 'b'\n",
-            "a: 'x' 'b'\na: 'y'\n", "s: a 'z'\na: 'x'\na: 'x' 'y'\n"]
+            "a: 'x' 'b'\na: 'y'\n", "s: a 'z'\na: 'x'\na: 'x' 'y'\n",
+            # terminals whose spelling needs an escape: the reserved string is what the literal denotes
+            "s: NAME '\\\\' NAME\n", "s: ('\\'\"' | '\\t')+ NAME\n", "s: '\\x5c' | '\\\\' NUMBER\n", "s: '\\n' 'a' | '\\t' 'b'\n", "s: \"it's\" | 'say \"x\"'\n"]
     return out
 
 
